@@ -648,6 +648,11 @@ func (e *ApplyTxError) UnmarshalCBOR(data []byte) error {
 		switch {
 		case failureType == ApplyTxErrorUtxowFailure:
 			// Use era-aware UTXOW failure decoding
+			if len(tmpFailure) < 2 {
+				return errors.New(
+					"ApplyTxError: UTXOW failure without payload",
+				)
+			}
 			utxowErr := &UtxowFailure{era: e.era}
 			if _, err := cbor.Decode(tmpFailure[1], utxowErr); err != nil {
 				return err
